@@ -61,7 +61,12 @@ type cntBlob struct {
 
 // mkBlob builds a container blob whose version field has the given length.
 func (w *cntWorld) mkBlob(owner, off, salt int, name string) *cntBlob {
-	b := make([]byte, 2+off+4+25+24)
+	return w.mkBlobTail(owner, off, salt, name, 24)
+}
+
+// mkBlobTail is mkBlob with a chosen number of bytes after the owner field (0: the owner id ends the blob).
+func (w *cntWorld) mkBlobTail(owner, off, salt int, name string, tail int) *cntBlob {
+	b := make([]byte, 2+off+4+25+tail)
 	b[0] = 0x0a
 	b[1] = byte(off)
 	for i := 0; i < off; i++ {
@@ -71,7 +76,11 @@ func (w *cntWorld) mkBlob(owner, off, salt int, name string) *cntBlob {
 	copy(b[2+off+4:], ownerID(w.owners[owner].ScriptHash()))
 	copy(b[2+off+4+25:], []byte(fmt.Sprintf("salt-%d-name-%s", salt, name)))
 	id := sha256.Sum256(b)
-	return &cntBlob{value: b, id: id[:], owner: owner, name: name, label: fmt.Sprintf("cnr(o%d,off%d,s%d,%q)", owner, off, salt, name)}
+	lbl := fmt.Sprintf("cnr(o%d,off%d,s%d,%q)", owner, off, salt, name)
+	if tail != 24 {
+		lbl = fmt.Sprintf("cnr(o%d,off%d,s%d,%q,tail%d)", owner, off, salt, name, tail)
+	}
+	return &cntBlob{value: b, id: id[:], owner: owner, name: name, label: lbl}
 }
 
 // mkEACL builds an eACL table blob referring to cid.
